@@ -208,7 +208,7 @@ def run(chk, model_ok=True):
 
         async def main(port):
             from gufo.snmp.async_client import SnmpSession
-            async with SnmpSession("127.0.0.1", port=port, community="public", version=SnmpVersion.v2c, timeout=0.2) as sx:
+            async with SnmpSession("127.0.0.1", port=port, community="public", version=SnmpVersion.v2c, timeout=1.0) as sx:
                 return await sx.get(t)
         r, _ = e2e.run_async(main, plan)
         if r[0] == "exc" and r[1].startswith("PySnmp"):
